@@ -17,9 +17,11 @@ def clean(x):
     return x
 
 class Recorder:
-    def __init__(self): self.reset()
-    def reset(self):
+    def __init__(self):
         self.sim = {}; self.opcodes = {}; self.cell = {}; self.output = {}
+    def reset(self):
+        # the wrappers hold references to these dicts: clear them in place
+        self.sim.clear(); self.opcodes.clear(); self.cell.clear(); self.output.clear()
     def dump(self):
         return {
             'sim': [[x, y, r] for (x, y), r in self.sim.items()],
